@@ -35,7 +35,7 @@ structure WfPkt (p : Pkt) : Prop where
   ad : ∀ rr ∈ p.additional, RROK rr ∧ rr.rrtype ≠ T_OPT
   anN : p.answer.length < 65536
   nsN : p.nameserver.length < 65536
-  adN : p.additional.length + 1 < 65536
+  adN : (additionalOf p).length < 65536
   bufsize : 512 ≤ p.bufsize ∧ p.bufsize < 65536
   /-- EDNS fields are consistent: present together with version 0, or absent with the defaults -/
   edns : (∃ e, p.edns = some e ∧ OptsOK e ∧ p.ednsVer = some 0) ∨
@@ -183,13 +183,11 @@ theorem message_roundtrip (p : Pkt) (hw : WfPkt p) (size : Nat) (wire : Bytes) (
   have g4 := getU16_at (by decide : 1 < 65536) a4
   have han : p.answer.length % 65536 = p.answer.length := Nat.mod_eq_of_lt hw.anN
   have hns : p.nameserver.length % 65536 = p.nameserver.length := Nat.mod_eq_of_lt hw.nsN
-  have hadl : (additionalOf p).length ≤ p.additional.length + 1 := by
-    unfold additionalOf; split <;> simp
-  have had : (additionalOf p).length % 65536 = (additionalOf p).length := Nat.mod_eq_of_lt (by have := hw.adN; omega)
+  have had : (additionalOf p).length % 65536 = (additionalOf p).length := Nat.mod_eq_of_lt hw.adN
   rw [han] at a5; rw [hns] at a6; rw [had] at a7
   have g5 := getU16_at hw.anN a5
   have g6 := getU16_at hw.nsN a6
-  have g7 := getU16_at (by have := hw.adN; omega : (additionalOf p).length < 65536) a7
+  have g7 := getU16_at hw.adN a7
   -- question type and class
   have hQ : At wire (12 + qb.length) (u16 p.qtype ++ (u16 p.qclass ++ (e1 ++ (e2 ++ e3)))) := by
     refine ⟨hdrOf p ++ qb, [], ?_, by simp [hl12]⟩
@@ -258,7 +256,7 @@ theorem message_roundtrip (p : Pkt) (hw : WfPkt p) (size : Nat) (wire : Bytes) (
     simp only [pure, Except.pure]
     congr 1
     clear hfind hrcode hdo hcls hrd hver O s1 s2 s3 q1 q2 q3 g1 g2 g3 g4 g5 g6 g7 g8 g9 hqn hadOK hroot0 hH a1 a2 a3 a4 a5 a6 a7 r1 r2 r3 r4 r5 hQ
-      h0 h1 h2 h3 hwire hq0 hfilter f1rd f1tc f1aa f1qr f1op f2cd f2ad f2ra f2rc hf1 hf2 hfindNone hfilterId hw han hns had hadl
+      h0 h1 h2 h3 hwire hq0 hfilter f1rd f1tc f1aa f1qr f1op f2cd f2ad f2ra f2rc hf1 hf2 hfindNone hfilterId hw han hns had
     cases p
     simp only at he hv ⊢
     subst he
